@@ -923,6 +923,8 @@ class TreeTransform(Generic[TreeFnT]):
       if type(fn) is tree_fns.TreeFn:  # pylint: disable=unidiomatic-typecheck
         result = set()
       result.update(itertools.chain(non_dict_keys, *dict_keys))
+    # An output assigned to SKIP is dropped, it is not a key of the outputs.
+    result.discard(tree.Key.SKIP)
     return result
 
   @property
